@@ -433,6 +433,8 @@ func (c *Client) recv(keepaliveQuit chan<- struct{}) {
 		case stanza.StreamClosePacket:
 			// TCP messages should arrive in order, so we can expect to get nothing more after this occurs
 			c.transport.ReceivedStreamClose()
+			// The stream is over: report it like any other loss of the connection
+			c.disconnected(c.Session.SMState)
 			return
 		case stanza.Message, stanza.Presence, *stanza.IQ:
 			// Only stanzas are counted (XEP-0198): not <a/>, stream features or any other non-stanza element
